@@ -46,6 +46,132 @@ fn input_json(inp: &Input, part: Option<&[usize]>) -> Value {
     })
 }
 
+/// a reader over one buffer whose `fill_buf` hands out at most `max` bytes at a time and, if `flaky`, fails with
+/// `Interrupted` on every other call (nothing is consumed by a failed call)
+struct Feed<'a> {
+    data: &'a [u8],
+    pos: usize,
+    max: usize,
+    flaky: bool,
+    calls: usize,
+}
+
+impl<'a> std::io::Read for Feed<'a> {
+    fn read(&mut self, buf: &mut [u8]) -> std::io::Result<usize> {
+        let n = buf.len().min(self.max).min(self.data.len() - self.pos);
+        buf[..n].copy_from_slice(&self.data[self.pos..self.pos + n]);
+        self.pos += n;
+        Ok(n)
+    }
+}
+
+impl<'a> std::io::BufRead for Feed<'a> {
+    fn fill_buf(&mut self) -> std::io::Result<&[u8]> {
+        self.calls += 1;
+        if self.flaky && self.calls % 2 == 1 {
+            return Err(std::io::Error::new(std::io::ErrorKind::Interrupted, "interrupted"));
+        }
+        let end = (self.pos + self.max).min(self.data.len());
+        Ok(&self.data[self.pos..end])
+    }
+    fn consume(&mut self, amt: usize) {
+        self.pos = (self.pos + amt).min(self.data.len());
+    }
+}
+
+/// the readers a decoder is driven with besides `Cursor`: a plain slice, a reader that hands out a few bytes
+/// per `fill_buf`, the crate's own `IOQueue` holding several chunks, a reader that fails every other call
+#[derive(Clone, Copy, Debug)]
+pub enum ReaderKind {
+    Slice,
+    Small(usize),
+    Queue,
+    Flaky,
+}
+
+/// drive one decoder over the whole stream through an alternative reader: `decode` is called until it reports
+/// `None` with nothing left in the reader; an error of a flaky reader is retried with the SAME decoder
+fn drive_alt<D: Decoder>(mut dec: D, stream: &[u8], part: &[usize], kind: ReaderKind) -> Result<Vec<D::Item>, RunErr>
+where
+    D::Item: std::fmt::Debug,
+    D::Error: std::fmt::Debug,
+{
+    use std::io::{BufRead, Write};
+    let bound = 8 * stream.len() + 64;
+    let r = guarded(move || -> Result<Vec<D::Item>, RunErr> {
+        let mut items = Vec::new();
+        let mut calls = 0usize;
+        macro_rules! run {
+            ($rd:expr, $left:expr) => {{
+                loop {
+                    calls += 1;
+                    if calls > bound {
+                        return Err(RunErr::NoEnd(format!("{calls} calls for {} bytes through {kind:?}", stream.len())));
+                    }
+                    match dec.decode(&mut $rd) {
+                        Ok(Some(item)) => items.push(item),
+                        Ok(None) => {
+                            if $left(&mut $rd) == 0 {
+                                break;
+                            }
+                        }
+                        Err(e) => {
+                            if !matches!(kind, ReaderKind::Flaky) {
+                                return Err(RunErr::Io(format!("{e:?}")));
+                            }
+                        }
+                    }
+                }
+            }};
+        }
+        match kind {
+            ReaderKind::Slice => {
+                let mut rd: &[u8] = stream;
+                run!(rd, |r: &mut &[u8]| r.len());
+            }
+            ReaderKind::Small(n) => {
+                let mut rd = Feed { data: stream, pos: 0, max: n.max(1), flaky: false, calls: 0 };
+                run!(rd, |r: &mut Feed| r.data.len() - r.pos);
+            }
+            ReaderKind::Flaky => {
+                let mut rd = Feed { data: stream, pos: 0, max: 5, flaky: true, calls: 0 };
+                run!(rd, |r: &mut Feed| r.data.len() - r.pos);
+            }
+            ReaderKind::Queue => {
+                let mut rd = surf_n_term::common::IOQueue::new();
+                let mut at = 0;
+                for n in part {
+                    rd.write_all(&stream[at..at + n]).map_err(|e| RunErr::Io(format!("{e:?}")))?;
+                    rd.flush().map_err(|e| RunErr::Io(format!("{e:?}")))?;
+                    at += n;
+                }
+                // nothing left: the front slice stays empty after an empty `consume`
+                run!(rd, |r: &mut surf_n_term::common::IOQueue| {
+                    let mut left = r.fill_buf().map(|b| b.len()).unwrap_or(0);
+                    let mut tries = 0;
+                    while left == 0 && tries < part.len() + 2 {
+                        BufRead::consume(r, 0);
+                        left = r.fill_buf().map(|b| b.len()).unwrap_or(0);
+                        tries += 1;
+                    }
+                    left
+                });
+            }
+        }
+        for _ in 0..3 {
+            let mut cur = Cursor::new(&b""[..]);
+            if let Some(item) = dec.decode(&mut cur).map_err(|e| RunErr::Io(format!("{e:?}")))? {
+                return Err(RunErr::AfterEnd(format!("{item:?}")));
+            }
+        }
+        Ok(items)
+    });
+    match r {
+        Ok(x) => x,
+        Err(()) => Err(RunErr::Panic),
+    }
+}
+
 enum RunErr {
     Panic,
     /// `decode` kept returning items although no input is left
@@ -144,8 +270,11 @@ pub fn run_matcher_input(inp: &Input) -> Outcome {
         let shown: Vec<String> = match inp.kind {
             Kind::Event => match drive(TTYEventDecoder::new(), &chunks, use_into) {
                 Ok(events) => {
+                    // every partition is judged (a defect may show only under some cut); the first one also
+                    // feeds the histogram and the correspondence with the model
+                    let answer = judge_events_checked(&mut o, inp, &events, pi == 0);
                     if pi == 0 {
-                        if let Some(answer) = judge_events(&mut o, inp, &events) {
+                        if let Some(answer) = answer {
                             model_lines(&mut o, inp, "ev", answer);
                         }
                     }
@@ -158,8 +287,9 @@ pub fn run_matcher_input(inp: &Input) -> Outcome {
             },
             _ => match drive(TTYCommandDecoder::new(), &chunks, use_into) {
                 Ok(cmds) => {
+                    let answer = judge_commands_checked(&mut o, inp, &cmds, pi == 0);
                     if pi == 0 {
-                        if let Some(answer) = judge_commands(&mut o, inp, &cmds) {
+                        if let Some(answer) = answer {
                             model_lines(&mut o, inp, "cmd", answer);
                         }
                     }
@@ -182,6 +312,45 @@ pub fn run_matcher_input(inp: &Input) -> Outcome {
                     o.obs.push("events depend on how the stream is cut into reads".into());
                     o.corr.push((format!("c02 {} {}", if inp.kind == Kind::Event { "ev" } else { "cmd" }, chunks_str(&inp.stream, part)),
                         format!("partition-dependent: {}", shown.join(" "))));
+                }
+            }
+        }
+    }
+    // one more run through a reader other than `Cursor` (rotating with the input number)
+    if inp.stream.len() <= 30_000 {
+        let kind = match inp.id % 5 {
+            0 => ReaderKind::Slice,
+            1 => ReaderKind::Small(1 + inp.id / 5 % 4),
+            2 => ReaderKind::Queue,
+            3 => ReaderKind::Flaky,
+            _ => ReaderKind::Small(7),
+        };
+        let part = inp.parts.last().cloned().unwrap_or_default();
+        let shown: Result<Vec<String>, RunErr> = match inp.kind {
+            Kind::Event => drive_alt(TTYEventDecoder::new(), &inp.stream, &part, kind).map(|events| {
+                judge_events_checked(&mut o, inp, &events, false);
+                events.iter().map(|e| format!("{e:?}")).collect()
+            }),
+            _ => drive_alt(TTYCommandDecoder::new(), &inp.stream, &part, kind).map(|cmds| {
+                judge_commands_checked(&mut o, inp, &cmds, false);
+                cmds.iter().map(|e| format!("{e:?}")).collect()
+            }),
+        };
+        o.hist.push(format!("reader:{}", match kind { ReaderKind::Slice => "slice", ReaderKind::Small(_) => "small-fill", ReaderKind::Queue => "ioqueue", ReaderKind::Flaky => "interrupted" }));
+        match shown {
+            Ok(shown) => {
+                if reference.as_ref() != Some(&shown) {
+                    o.obs.push(format!("events depend on the reader ({kind:?})"));
+                    o.corr.push((format!("c02 {} {}", if inp.kind == Kind::Event { "ev" } else { "cmd" }, chunks_str(&inp.stream, &inp.parts[0])),
+                        format!("reader-dependent ({kind:?}): {}", shown.join(" "))));
+                }
+            }
+            Err(e) => {
+                let mut fails = Vec::new();
+                report_run_err(&mut fails, inp, &part, e);
+                for mut f in fails {
+                    f["what"] = json!(format!("{} (reader: {kind:?})", f["what"].as_str().unwrap_or("")));
+                    o.fails.push(f);
                 }
             }
         }
@@ -228,7 +397,33 @@ fn segments<'a>(o: &mut Outcome, inp: &'a Input, n_items: usize) -> Option<Vec<&
     Some(segs)
 }
 
-fn judge_events(o: &mut Outcome, inp: &Input, events: &[TerminalEvent]) -> Option<String> {
+/// secondary runs (other partitions, other readers): judged only when the items line up with the tokens of the
+/// stream; otherwise the run differs from the first one, which is counted as chunk / reader dependence
+fn judge_events_checked(o: &mut Outcome, inp: &Input, events: &[TerminalEvent], primary: bool) -> Option<String> {
+    if !primary {
+        if let Ok(ends) = boundaries(inp.kind, &inp.stream) {
+            if ends.len() != events.len() {
+                o.obs.push("items of a secondary run do not line up with the tokens of the stream".into());
+                return None;
+            }
+        }
+    }
+    judge_events(o, inp, events, primary)
+}
+
+fn judge_commands_checked(o: &mut Outcome, inp: &Input, cmds: &[TerminalCommand], primary: bool) -> Option<String> {
+    if !primary {
+        if let Ok(ends) = boundaries(inp.kind, &inp.stream) {
+            if ends.len() != cmds.len() {
+                o.obs.push("items of a secondary run do not line up with the tokens of the stream".into());
+                return None;
+            }
+        }
+    }
+    judge_commands(o, inp, cmds, primary)
+}
+
+fn judge_events(o: &mut Outcome, inp: &Input, events: &[TerminalEvent], primary: bool) -> Option<String> {
     let mut answer = None;
     // raw bytes in order: property level check, independent of the token boundaries
     let mut raw_all = Vec::new();
@@ -247,7 +442,9 @@ fn judge_events(o: &mut Outcome, inp: &Input, events: &[TerminalEvent]) -> Optio
         for (seg, ev) in segs.iter().zip(events) {
             let mut fs = Vec::new();
             let fam = oracle::check_event(&mut fs, seg, ev);
-            o.hist.push(format!("event:{fam}"));
+            if primary {
+                o.hist.push(format!("event:{fam}"));
+            }
             push_fails(o, inp, None, fs);
         }
         // rendering for the correspondence with the Lean model of the whole decoder; an OSC colour report whose
@@ -297,7 +494,7 @@ fn is_osc_token(seg: &[u8]) -> bool {
     nd >= 1 && body.get(nd) == Some(&b';') && body.len() > nd + 1 && body[nd + 1..].iter().all(|b| *b != 0x1b && *b != 7)
 }
 
-fn judge_commands(o: &mut Outcome, inp: &Input, cmds: &[TerminalCommand]) -> Option<String> {
+fn judge_commands(o: &mut Outcome, inp: &Input, cmds: &[TerminalCommand], primary: bool) -> Option<String> {
     let mut answer = None;
     let mut raw_all = Vec::new();
     for c in cmds {
@@ -315,7 +512,9 @@ fn judge_commands(o: &mut Outcome, inp: &Input, cmds: &[TerminalCommand]) -> Opt
         for (seg, c) in segs.iter().zip(cmds) {
             let mut fs = Vec::new();
             let fam = oracle::check_command(&mut fs, seg, c);
-            o.hist.push(format!("command:{fam}"));
+            if primary {
+                o.hist.push(format!("command:{fam}"));
+            }
             push_fails(o, inp, None, fs);
         }
         let shown: Vec<String> = cmds.iter().map(events::show_command).collect();
